@@ -4,19 +4,20 @@ package bfe_server
 
 // C15 — hot reload is atomic and race-free.
 //
-// Engine E1: one real in-memory BfeServer (real host/route/cluster tables, real BalTable, real
-// ReverseProxy, real callback table, real mod_block / mod_header / mod_rewrite instances, real
-// TLS rule and certificate maps); the bfe files that declare its locks have `import "sync"`
-// rewritten to the modelled vsync, so every Lock/Unlock/RLock/RUnlock is a scheduling point of
-// the vsched controlled scheduler. A scenario is a set of threads:
+// Engine E1: real in-memory BfeServers (real host/route/cluster tables, real BalTable, real
+// ReverseProxy, real callback table, real TLS rule and certificate maps; a second server also has
+// real mod_block / mod_header / mod_rewrite instances loaded and serves the scenarios with module
+// reloads); the bfe files that declare their locks have `import "sync"` rewritten to the modelled
+// vsync, so every Lock/Unlock/RLock/RUnlock is a scheduling point of the vsched controlled
+// scheduler. A scenario is a set of threads:
 //
 //   R  request path: newConn -> conn.readRequest (GetServerConf snapshot) -> ReverseProxy.ServeHTTP
 //      (findProduct -> module callbacks -> findCluster -> ClusterTable.Lookup -> getTransport ->
 //      balTable.Lookup -> Balance -> forward callbacks -> RoundTrip (stub) -> sendResponse)
 //   S  srv.serverDataConfReload(version 2 files)      C  the same with version 3 files
-//   G  srv.gslbDataConfReload(gslb version 2 files)
+//   G  srv.gslbDataConfReload (the cluster moves to a new sub-cluster)   g  (its backend is replaced)
 //   L  srv.TLSConfReload(path=tls version 2, enable=-h2)      H  one TLS handshake's look-ups
-//      (MultiCert.Get, TLSServerRule.Get, NextProtos.Get, GetHTTP2Rule) for two connections
+//      (MultiCert.Get, TLSServerRule.Get, StatusNextProto, GetHTTP2Rule) for two connections
 //   B/E/W  the reload handlers mod_block / mod_header / mod_rewrite registered with the web
 //      monitor (product rule tables, version 2 files)
 //
@@ -32,17 +33,19 @@ package bfe_server
 //     host to three different products and 9 different clusters with 27 different timeout
 //     values, so any mixture is visible.
 //   * balancing: the (sub-cluster, backend) a request obtains, or its failure, is an outcome
-//     the request has under one of the gslb versions alone; the gslb-basic parameters inside
-//     the balancer are not older than the request's own snapshot.
-//   * TLS / module look-ups: every field of the rule returned by one look-up comes from one
-//     version of the reloaded table.
+//     the request has under one of the gslb versions alone.
+//   * tables that bfe looks up once per phase (parameters copied into the shared balancer,
+//     module rule tables) cannot give a per-request snapshot by construction; demanded of them:
+//     every look-up returns the content of ONE version, and a request never works with a version
+//     OLDER than the one it already had (its own snapshot / an earlier phase).
+//   * TLS look-ups: every field of the rule returned by one look-up comes from one version.
 //   * zero data-race reports (precise happens-before per interleaving), no panic, no deadlock,
 //     no livelock (step horizon).
 //
-// Deliberately not judged: a request whose snapshot is OLDER than the parameters currently in
-// the shared balancer (the balancer is one shared object that reloads update in place), and
-// which certificate/rule pair a TLS handshake sees across MultiCert and TLSServerRule (two
-// tables, the statement speaks of requests).
+// Counted but deliberately not judged: a look-up that sees a NEWER version than the request's
+// snapshot or earlier phase (balancer parameters, mod_header response rules vs request rules),
+// the certificate/rule pair a TLS handshake sees across MultiCert and TLSServerRule (two tables;
+// the statement speaks of requests), and the state at quiescence when no request is involved.
 
 import (
 	"bytes"
@@ -303,6 +306,7 @@ func c15obsOf(req *bfe_basic.Request) *c15obs {
 }
 
 type c15env struct {
+	withMods bool
 	srv     *BfeServer
 	root    string
 	sconf   [c15nver + 1]c15files
@@ -384,8 +388,8 @@ func c15tlsRule(v int) c15M {
 			"NextProtos": []string{"h2;mcs=202", "spdy/3.1", "http/1.1"}, "Grade": "B", "ClientAuth": false, "Chacha20": true, "DynamicRecord": true}}}
 }
 
-func c15newEnv(root string) *c15env {
-	e := &c15env{root: root, reload: map[string]func(url.Values) error{}}
+func c15newEnv(root string, withMods bool) *c15env {
+	e := &c15env{root: root, withMods: withMods, reload: map[string]func(url.Values) error{}}
 	os.RemoveAll(root)
 	for z := 1; z <= c15nver; z++ {
 		e.sconf[z] = c15writeServerConf(filepath.Join(root, fmt.Sprintf("sv%d", z)), z)
@@ -449,12 +453,16 @@ func c15newEnv(root string) *c15env {
 	}
 	must(srv.CallBacks.AddFilter(bfe_module.HandleFoundProduct, e.foundProduct))
 	whs := web_monitor.NewWebHandlers()
-	must(mod_block.NewModuleBlock().Init(srv.CallBacks, whs, cr))
-	must(mod_rewrite.NewModuleReWrite().Init(srv.CallBacks, whs, cr))
-	must(mod_header.NewModuleHeader().Init(srv.CallBacks, whs, cr))
+	names := []string{}
+	if withMods {
+		must(mod_block.NewModuleBlock().Init(srv.CallBacks, whs, cr))
+		must(mod_rewrite.NewModuleReWrite().Init(srv.CallBacks, whs, cr))
+		must(mod_header.NewModuleHeader().Init(srv.CallBacks, whs, cr))
+		names = []string{"mod_block.product_rule_table", "mod_header", "mod_rewrite"}
+	}
 	must(srv.CallBacks.AddFilter(bfe_module.HandleAfterLocation, e.afterLocation))
 	must(srv.CallBacks.AddFilter(bfe_module.HandleForward, e.forward))
-	for _, name := range []string{"mod_block.product_rule_table", "mod_header", "mod_rewrite"} {
+	for _, name := range names {
 		h, ok := (*whs.Handlers[web_monitor.WebHandleReload])[name]
 		if !ok {
 			panic("c15: reload handler not registered: " + name)
@@ -479,7 +487,7 @@ func (e *c15env) reset(sc c15scn) {
 		panic(fmt.Sprintf("c15: reset: InitDataLoad: %v", err))
 	}
 	e.bals = srv.balTable.VerifC15Bals()
-	if strings.ContainsAny(sc.threads, "BEW") || sc.mods {
+	if sc.usesMods() {
 		for name, f := range e.reload {
 			if err := f(url.Values{"path": {e.modData[1][name]}}); err != nil {
 				panic(fmt.Sprintf("c15: reset: module %s: %v", name, err))
@@ -504,6 +512,10 @@ type c15scn struct {
 	mods    bool     // reset module tables although no module reload thread runs
 	bal     int      // which consistent cluster k<bal><bal> has a balancer (0 = 1)
 }
+
+// usesMods: the scenario runs on the server that has mod_block / mod_header / mod_rewrite loaded
+// (the others run on a server without modules: fewer synchronisation points per request).
+func (sc c15scn) usesMods() bool { return sc.mods || strings.ContainsAny(sc.threads, "BEW") }
 
 func (sc c15scn) balOf() int {
 	if sc.bal == 0 {
@@ -741,7 +753,8 @@ func (e *c15env) check(r *vk.Run, sc c15scn, id string, out vsched.Outcome, res 
 		if !o.snapKept {
 			r.Violation("snapshot:replaced-during-request", id, who+": a later phase saw another snapshot object than readRequest took")
 		}
-		blocked := o.path == "/blocked1" || o.path == "/blocked2"
+		// mod_block version 1 closes /blocked1, version 2 (only after a B reload) closes /blocked2
+		blocked := sc.usesMods() && (o.path == "/blocked1" || (o.path == "/blocked2" && strings.Contains(sc.threads, "B")))
 		if !o.alCalled {
 			if blocked && o.fpCalled && o.fpProd == fmt.Sprintf("p%d", s) && o.action == closeDirectly {
 				r.Outcome("request:blocked-by-mod_block")
@@ -821,7 +834,7 @@ func (e *c15env) check(r *vk.Run, sc c15scn, id string, out vsched.Outcome, res 
 			}
 			r.Violation("gslb-basic:older-than-request-snapshot:"+kind, id, fmt.Sprintf("%s: the request took its snapshot from version %d, yet the balancer ran with the gslb-basic parameters (RetryMax, CrossRetry, HashConf, BalanceMode) of version %d, which had been replaced before the request started; when all reloads had finished the server data conf was version %d and the balancer had the parameters of version %d", who, s, o.retryMax, final, res.finalRM))
 		}
-		if sc.mods || strings.ContainsAny(sc.threads, "BEW") {
+		if sc.usesMods() {
 			hasE, hasW := strings.Contains(sc.threads, "E"), strings.Contains(sc.threads, "W")
 			okv := func(v, pfx string, reloaded bool) bool { return v == pfx+"1" || (reloaded && v == pfx+"2") }
 			switch {
@@ -1007,6 +1020,7 @@ func c15passes(thorough bool) []c15pass {
 		{name: "R+G+g", threads: "RGg"},
 		{name: "H+H+L", threads: "HHL"},
 		{name: "R+S+E/b2", threads: "RSE", bal: 2},
+		{name: "R+S+m/b2", threads: "RS", bal: 2, mods: true},
 		{name: "R+B+W", threads: "RBW", paths: []string{"/rw"}},
 		{name: "R+E+E", threads: "REE"},
 	}
@@ -1020,7 +1034,17 @@ func c15passes(thorough bool) []c15pass {
 	if !thorough {
 		return []c15pass{{2, two, true}, {1, three, true}, {0, four, true}}
 	}
-	return []c15pass{{3, two, false}, {2, three, false}, {2, four, false}}
+	// thorough: the three-thread scenarios that only repeat, at bound 2, what a sibling covers
+	// (same thread mix with the balancer on the other cluster / the other gslb flavour) are
+	// left to the quick tier
+	var three2 []c15scn
+	for _, sc := range three {
+		if sc.name == "R+S+G/b1" || sc.name == "R+S+g/b2" || sc.name == "R+E+E" {
+			continue
+		}
+		three2 = append(three2, sc)
+	}
+	return []c15pass{{3, two, false}, {2, three2, false}, {1, four, false}}
 }
 
 func TestVerifC15(t *testing.T) {
@@ -1039,7 +1063,8 @@ func TestVerifC15(t *testing.T) {
 	}
 	se := c15captureStderr(scratch)
 	defer se.restore()
-	env := c15newEnv(filepath.Join(scratch, "cfg"))
+	envPlain := c15newEnv(filepath.Join(scratch, "cfg"), false)
+	envMods := c15newEnv(filepath.Join(scratch, "cfg-mods"), true)
 	stop := func() bool { return r.Expired("c15") }
 	unit := 0
 	defer func() {
@@ -1063,6 +1088,10 @@ func TestVerifC15(t *testing.T) {
 	for _, ps := range passes {
 		for _, sc := range ps.scns {
 			name := fmt.Sprintf("%s@%d", sc.name, ps.bound)
+			env := envPlain
+			if sc.usesMods() {
+				env = envMods
+			}
 			states := map[string]bool{}
 			var execs int64
 			one := func(ch *vk.Chooser) {
